@@ -2,7 +2,7 @@
 import shutil
 import vlib
 
-RULE = ("stream aggstore (sequential): seeded histories (create, accepted / rejected / no-op / vetoed commands, failed "
+RULE = ("stream aggstore (sequential + --real for krill's own RepositoryAccess aggregate): seeded histories (create, accepted / rejected / no-op / vetoed commands, failed "
         "writes, reads, snapshots at random points, store objects re-created = cache drops, delete + re-create, history "
         "queries) against the real AggregateStore<Reg> (init version 1 and 0) and WalStore<Bag> through several store "
         "objects on the memory and disk back-ends; after each history and at random points a FRESH store on the same "
@@ -35,14 +35,19 @@ def check(ctx):
     if vlib.build_harness(ctx, ["aggstore"]):
         n, length = (1200, 15) if ctx.tier == "quick" else (40000, 30)
         found = vlib.generic_stateful_stream(ctx, "aggstore", "aggstore C06", n, length, sig)
+        # the same fresh-store / from-scratch comparison for a real krill aggregate (RepositoryAccess)
+        n, length = (16, 10) if ctx.tier == "quick" else (300, 16)
+        found |= vlib.generic_stateful_stream(ctx, "aggstore", "aggstore C06", n, length, sig,
+                                              extra_args=["--real"], corpus="aggstore-real")
     else:
         ctx.failed_obligations.append("harness-build")
     # a known finding is not a failing input for a broken obligation
     vlib.obligations_broken(ctx, bool(ctx.violations))
     ctx.assumptions += [
         "the aggregate is abstract in the theorems (init/process/apply/pre-save listener); the stream instantiates it with a "
-        "test aggregate implementing krill's public Aggregate / WalSupport traits; the same comparison for the real CertAuth / "
-        "RepositoryAccess / RepositoryContent aggregates (are their apply() pure functions of the stored events?) is left to the system stream",
+        "test aggregate implementing krill's public Aggregate / WalSupport traits; the real RepositoryAccess aggregate gets the same "
+        "fresh-store / from-scratch comparison here (--real); CertAuth, TA proxy/signer and RepositoryContent need a whole KrillRuntime "
+        "as command context and are left to the system stream",
         "initVersion <= 1 (1 for CertAuth, RepositoryAccess, TA proxy/signer; 0 for SignerInfo)",
         "drop_aggregate / WalStore::remove / WalStore::add clear only the calling store object's cache (modelled); histories use them "
         "only when no other long-lived store object caches the entity, as krill does",
